@@ -105,7 +105,119 @@ Theorem clear_sees_host : forall (S : Type) (ps : plugins S) (uri_ok : str -> bo
   = ({| hr_data := frame (B "ok") (Some (B "cleared the caches on " ++ utf8_encode host)); hr_close := false |}, s).
 Proof. exact clear_all_sees_host. Qed.
 
+(** ---- strengthening: every panic explicit, any number of connections -------------------------------------- *)
+
+(** For every request byte string (any length, UTF-8 or not) and every plugin table whose plugins
+    do not panic, the handler -- with the panics of its own operations explicit ([frame_chk]:
+    the range check of [data[..prepend.len()]] and the length check of [copy_from_slice]) --
+    returns a reply that begins with [ok] or [error]. *)
+Theorem reply_total : forall (S : Type) (ps : plugins_chk S) (req : bytes) (s : S),
+  plugins_total ps ->
+  exists hr s', handle_chk ps req s = Ok (hr, s') /\ status_ok (hr_data hr).
+Proof. exact handle_chk_total. Qed.
+
+(** The handler of the earlier theorems is this one: with plugins that cannot panic nothing in
+    the closure panics. *)
+Theorem handler_never_panics : forall (S : Type) (ps : plugins S) (req : bytes) (s : S),
+  handle_chk (lift_plugins ps) req s = Ok (handle ps req s).
+Proof. exact handle_chk_lift. Qed.
+
+(** [with_ping]'s [data.remove(0)] (a [String] operation that panics off a char boundary and on
+    an empty string) is always on the space pushed first. *)
+Theorem ping_never_panics : forall (S : Type) (args : list str) (s : S),
+  ping_plugin_chk args s = Ok (ping_plugin args s).
+Proof. exact ping_plugin_chk_ok. Qed.
+
+(** Cutting the request at a byte count, [&data[..data.len().min(64)]], is NOT total on valid
+    UTF-8: the reason why no such slice may appear in the handler. *)
+Theorem log_truncation_refuted :
+  exists (data : bytes) (line : str),
+    utf8_decode data = Some line /\ (length data > 64)%nat /\ log_truncate_chk 64 data = Panic.
+Proof. exact log_truncation_panics. Qed.
+
+(** The listener with any number of connections, in ANY state [st] (so in every reachable one),
+    for ANY further events [evs] of the other connections and of the environment (every
+    interleaving): a connection whose request is complete stays so, nobody else can consume or
+    disturb it; and as soon as its handler is not blocked (its plugin terminates), its own step
+    gives it a reply beginning with [ok] or [error] -- whatever phase the other connections are
+    in (connected and silent, half sent, waiting for a shutdown, ...) -- and changes no other
+    connection. *)
+Theorem socket_never_wedged : forall (S : Type) (ps : plugins_chk S) (blocked : bytes -> S -> bool)
+    (env_step : N -> S -> S * bool) (st : lts_state S) (evs : list event) (k : N) (req : bytes),
+  plugins_total ps ->
+  conn_get k (l_conns st) = Some (PComplete req) ->
+  Forall (fun ev => event_conn ev <> Some k) evs ->
+  let st1 := lrun ps blocked env_step st evs in
+  conn_get k (l_conns st1) = Some (PComplete req) /\
+  (blocked req (l_env st1) = false ->
+   let st2 := lstep ps blocked env_step st1 (EHandle k) in
+   (exists d, conn_get k (l_conns st2) = Some (PReplied d) /\ status_ok d) /\
+   (forall j, j <> k -> conn_get j (l_conns st2) = conn_get j (l_conns st1))).
+Proof. exact never_wedged. Qed.
+
+(** While the listener listens a new connection is accepted and read to its end whatever the
+    others are doing, without effect on listener, state or other connections. *)
+Theorem accept_never_blocked : forall (S : Type) (ps : plugins_chk S) (blocked : bytes -> S -> bool)
+    (env_step : N -> S -> S * bool) (st : lts_state S) (k : N) (req : bytes),
+  l_listener st = Listening -> conn_get k (l_conns st) = None ->
+  let st1 := lrun ps blocked env_step st [EConnect k; ESend k req; EFin k] in
+  conn_get k (l_conns st1) = Some (PComplete req) /\ l_listener st1 = Listening /\ l_env st1 = l_env st /\
+  (forall j, j <> k -> conn_get j (l_conns st1) = conn_get j (l_conns st)).
+Proof. exact accept_not_blocked. Qed.
+
+(** Nothing a client does (connect, send, half-close, stay silent) closes the listener or changes
+    the state: only a response with [close] or the environment does. *)
+Theorem clients_cannot_close : forall (S : Type) (ps : plugins_chk S) (blocked : bytes -> S -> bool)
+    (env_step : N -> S -> S * bool) (st : lts_state S) (ev : event),
+  (forall k, ev <> EHandle k) -> (forall e, ev <> EEnv e) ->
+  l_listener (lstep ps blocked env_step st ev) = l_listener st /\ l_env (lstep ps blocked env_step st ev) = l_env st.
+Proof. exact client_events_keep_listener. Qed.
+
+(** Requests that are not UTF-8 or name no plugin: the same [error] reply in every state, no
+    effect -- at whatever point among the other connections' events the handler runs. *)
+Theorem rejected_requests_schedule_independent : forall (S : Type) (ps : plugins_chk S) (req : bytes),
+  (utf8_decode req = None \/
+   exists line, utf8_decode req = Some line /\ lookup_chk (request_name (quoted_str_split line)) ps = None) ->
+  exists d, starts_with (B "error") d = true /\
+            forall s, handle_chk ps req s = Ok ({| hr_data := d; hr_close := false |}, s).
+Proof. exact rejected_reply_constant. Qed.
+
+(** The plugin table of the concurrent sessions satisfies the hypothesis. *)
+Theorem fixture_plugins_total : plugins_total fx_plugins_chk.
+Proof. exact fx_plugins_chk_total. Qed.
+
 (** Non-vacuity: concrete instances. *)
+Example ex_slice_straddle :
+  str_slice_chk 0 64 (repeat 97 63 ++ [195; 182; 122]) = Panic /\
+  str_slice_chk 0 63 (repeat 97 63 ++ [195; 182; 122]) = Ok (repeat 97 63) /\
+  str_slice_chk 0 65 (repeat 97 63 ++ [195; 182; 122]) = Ok (repeat 97 63 ++ [195; 182]) /\
+  str_slice_chk 0 67 (repeat 97 63 ++ [195; 182; 122]) = Panic /\
+  str_remove_chk 0 [] = Panic /\ str_remove_chk 1 [195; 182] = Panic /\ str_remove_chk 0 [195; 182; 122] = Ok [122].
+Proof. repeat split; vm_compute; reflexivity. Qed.
+Example ex_reply_total :
+  handle_chk fx_plugins_chk (repeat 97 63 ++ [195; 182; 122]) fx_init
+  = Ok ({| hr_data := msg_not_found; hr_close := false |}, fx_init).
+Proof. vm_compute. reflexivity. Qed.
+(** connection 1 waits for the shutdown, 2 is connected and silent, 3 has sent half a request:
+    connection 4's [ping] is answered, and so is an unknown command; then 1 at the shutdown *)
+Example ex_never_wedged :
+  let st := lrun fx_plugins_chk fx_blocked fx_env_step (lts_init fx_init)
+              [EConnect 1; ESend 1 (B "wait"); EFin 1; EHandle 1; EConnect 2; EConnect 3; ESend 3 (B "pi");
+               EConnect 4; ESend 4 (B "ping x"); EFin 4] in
+  conn_get 1 (l_conns st) = Some (PComplete (B "wait")) /\ fx_blocked (B "wait") (l_env st) = true /\
+  conn_get 4 (l_conns st) = Some (PComplete (B "ping x")) /\ fx_blocked (B "ping x") (l_env st) = false /\
+  conn_get 4 (l_conns (fx_lstep st (EHandle 4))) = Some (PReplied (B "ok ""x""")) /\
+  l_listener st = Listening /\
+  conn_get 1 (l_conns (lrun fx_plugins_chk fx_blocked fx_env_step st [EEnv 0; EHandle 1])) = Some (PReplied (B "ok")).
+Proof. repeat split; vm_compute; reflexivity. Qed.
+Example ex_conc :
+  run_conc (XL [XL [XN 8; XN 1; XB (B "wait")]; XL [XN 7; XN 2; XB (B "ping a")]; XL [XN 7; XN 3; XB (B "nope")];
+                XL [XN 9; XN 1]; XL [XN 4; XN 0]; XL [XN 3; XN 1]; XL [XN 7; XN 4; XB (B "ping")]])
+  = XL [XL [XN 2; XL [XN 0; XB (B "ok ""a""")]]; XL [XN 3; XL [XN 0; XB msg_not_found]]; XL [XN 1; XL [XN 4]];
+        XL [XN 1; XL [XN 0; XB (B "ok")]]; XL [XN 4; XL [XN 1]]].
+Proof. vm_compute. reflexivity. Qed.
+
+(** Non-vacuity of the first group. *)
 Example ex_roundtrip_empty : quoted_str_split (join_sp (map encode_quoted_str [[]; B "a b"; []; B "\"])) = [[]; B "a b"; []; B "\"].
 Proof. vm_compute. reflexivity. Qed.
 Example ex_wire : join_sp (map encode_quoted_str [[]; B "a b"; [34; 92]]) = [34; 34; 32; 34; 97; 32; 98; 34; 32; 34; 92; 34; 92; 92; 34].
